@@ -298,3 +298,68 @@ pub fn count_choices<T, G: Fn(&mut Chooser) -> T>(gen: G) -> u64 {
     }
     n
 }
+
+/// Exhaustive enumeration of a finite product of menus (mixed-radix counter), split over
+/// threads by index range. `visit(state, digits)`; digits[i] in 0..radices[i].
+pub fn explore_product<S, M, V>(
+    radices: &[usize],
+    make: M,
+    visit: V,
+    stop: &(dyn Fn() -> bool + Sync),
+) -> u64
+where
+    S: Send,
+    M: Fn() -> S + Sync,
+    V: Fn(&mut S, &[usize]) + Sync,
+{
+    let total: u64 = radices.iter().map(|&r| r as u64).product();
+    if total == 0 {
+        return 0;
+    }
+    let nt = n_threads() as u64;
+    let chunk = (total / (nt * 8)).max(1);
+    let next = std::sync::atomic::AtomicU64::new(0);
+    let done = std::sync::atomic::AtomicU64::new(0);
+    std::thread::scope(|sc| {
+        for _ in 0..nt {
+            sc.spawn(|| {
+                let mut st = make();
+                let mut digits = vec![0usize; radices.len()];
+                let mut count = 0u64;
+                loop {
+                    let lo = next.fetch_add(chunk, Ordering::Relaxed);
+                    if lo >= total || stop() {
+                        break;
+                    }
+                    let hi = (lo + chunk).min(total);
+                    // decode lo (last digit fastest)
+                    let mut x = lo;
+                    for i in (0..radices.len()).rev() {
+                        digits[i] = (x % radices[i] as u64) as usize;
+                        x /= radices[i] as u64;
+                    }
+                    for n in lo..hi {
+                        visit(&mut st, &digits);
+                        count += 1;
+                        if (n & 0xfff) == 0 && stop() {
+                            break;
+                        }
+                        // increment
+                        let mut i = radices.len();
+                        while i > 0 {
+                            i -= 1;
+                            digits[i] += 1;
+                            if digits[i] < radices[i] {
+                                break;
+                            }
+                            digits[i] = 0;
+                        }
+                    }
+                }
+                done.fetch_add(count, Ordering::Relaxed);
+                drop(st);
+            });
+        }
+    });
+    done.load(Ordering::Relaxed)
+}
